@@ -374,6 +374,51 @@ func runC17(t *testing.T, tier string) int {
 					sink.add(report.Viol{Property: "C17", Check: "C17/deleted-topics", Rule: "get-roundtrip", Text: fmt.Sprintf("%s after deleting the %s topic: the configuration changed although nobody updated it:\n got  %v\n want %v", how, which, got, want), Trace: []string{which, how}})
 				}
 			}
+			// ... and setting the dead-letter policy again - while its topic is deleted, and
+			// after a topic of that NAME was created again: whenever the update is
+			// accepted, Get and List report the topic the update named
+			if which != "source" {
+				for step, recreate := range []bool{false, true} {
+					if recreate {
+						if _, err := w.Pub.CreateTopic(ctx, &pubsubpb.Topic{Name: dl}); err != nil {
+							t.Fatal(err)
+						}
+					}
+					resp, uerr := w.Sub.UpdateSubscription(ctx, &pubsubpb.UpdateSubscriptionRequest{
+						Subscription: &pubsubpb.Subscription{Name: name, DeadLetterPolicy: &pubsubpb.DeadLetterPolicy{DeadLetterTopic: dl, MaxDeliveryAttempts: 9}},
+						UpdateMask:   &fieldmaskpb.FieldMask{Paths: []string{"dead_letter_policy"}}})
+					updates++
+					if uerr != nil {
+						if recreate {
+							sink.add(report.Viol{Property: "C17", Check: "C17/deleted-topics", Rule: "update-response", Text: fmt.Sprintf("UpdateSubscription(dead_letter_policy -> a live topic whose name a deleted topic had before) failed: %v", uerr), Trace: []string{which, fmt.Sprint(step)}})
+						}
+						continue
+					}
+					shown := map[string]string{"Update response": ""}
+					if resp.GetDeadLetterPolicy() != nil {
+						shown["Update response"] = fmt.Sprintf("%s/%d", resp.DeadLetterPolicy.DeadLetterTopic, resp.DeadLetterPolicy.MaxDeliveryAttempts)
+					}
+					if got, err := w.Sub.GetSubscription(ctx, &pubsubpb.GetSubscriptionRequest{Subscription: name}); err == nil && got.DeadLetterPolicy != nil {
+						shown["Get"] = fmt.Sprintf("%s/%d", got.DeadLetterPolicy.DeadLetterTopic, got.DeadLetterPolicy.MaxDeliveryAttempts)
+					} else {
+						shown["Get"] = fmt.Sprintf("no policy (%v)", err)
+					}
+					gets++
+					if lr, err := w.Sub.ListSubscriptions(ctx, &pubsubpb.ListSubscriptionsRequest{Project: "projects/p", PageSize: 1000}); err == nil {
+						for _, e := range lr.Subscriptions {
+							if e.Name == name && e.DeadLetterPolicy != nil {
+								shown["List"] = fmt.Sprintf("%s/%d", e.DeadLetterPolicy.DeadLetterTopic, e.DeadLetterPolicy.MaxDeliveryAttempts)
+							}
+						}
+					}
+					want := fmt.Sprintf("%s/%d", dl, 9)
+					for how, v := range shown {
+						if v != want {
+							sink.add(report.Viol{Property: "C17", Check: "C17/deleted-topics", Rule: "get-roundtrip", Text: fmt.Sprintf("an accepted UpdateSubscription set the dead-letter policy to %s (topic deleted before: %v, created again: %v); %s shows %s", want, true, recreate, how, v), Trace: []string{which, fmt.Sprint(step), how}})
+						}
+					}
+				}
+			}
 			w.Sub.DeleteSubscription(ctx, &pubsubpb.DeleteSubscriptionRequest{Subscription: name})
 		}
 
